@@ -718,6 +718,133 @@ def infinite_case(ctx, inst, icfg, origin):
     return ok
 
 
+EXC_ENGINES = [
+    # (engine n, mixer, diag_method, combine) for the search of the first excited state (orthogonal_to=[ground state])
+    (2, 'none', 'ED_block', False),
+    (2, 'dm', 'default', True),
+    (2, 'none', 'lanczos', False),
+    (2, 'sub', 'arpack', False),
+    (2, 'dm', 'ED_block', False),
+    (1, 'sub', 'lanczos', False),
+    (1, 'sub', 'ED_block', True),
+    (1, 'dm', 'default', False),
+]
+EXC_SHIFT = 10     # H - EXC_SHIFT: tenpy asks for a negative target energy when orthogonalising (orthogonal vectors have eigenvalue 0)
+
+
+def excited_case(ctx, inst, xcfg, psi0, M, s1, origin):
+    """Excited-state search on a certified (complex) instance: DMRG orthogonal to the certified ground state.
+    Postconditions: X1 <v|psi> = 0 (v the spec's exact ground vector), P1, P2, X3 E_reported = <H> without truncation,
+    X4 <H> > E0 (a state orthogonal to the certified unique ground state lies strictly above it)."""
+    import numpy as np
+    from tenpy.networks.mps import MPS
+    from tenpy.algorithms import dmrg
+    n, mix, diag, combine = xcfg
+    L = inst['L']
+    scale = max(1.0, EXC_SHIFT + sum(abs(t['c']) * (3 if t['k'] == 'p32' else 1) for t in inst['terms']))
+    tol = 1e-8 * scale
+    E0 = inst['E0x4'] / 4.0 - EXC_SHIFT
+    sig0 = dict(kind='replay', spec='Solvable', fam=inst['fam'] + '-excited', engine='TwoSite' if n == 2 else 'SingleSite', mix=mix,
+                diag=diag, combine=combine, complex_H=(inst['twk'] != 0))
+    detail0 = dict(instance=tlaval.to_jsonable({k: inst[k] for k in ('fam', 'L', 'nup', 'var', 'twk', 'tw', 'terms', 'E0x4')}),
+                   engine_cfg=list(xcfg), start=s1, origin=origin)
+    key = ('exc', inst['fam'], L, inst['nup'], inst['var'], inst['twk'], xcfg, s1)
+    psi = MPS.from_product_state(M.lat.mps_sites(), ['up' if (s1 >> i) & 1 else 'down' for i in range(L)], bc='finite')
+    opts = dict(mixer=MIXERS[mix], diag_method=diag, combine=combine, max_sweeps=30, N_sweeps_check=1, max_E_err=1e-13,
+                max_S_err=1e-9, max_trunc_err=None, trunc_params=dict(chi_max=2 ** (L // 2) + 4, svd_min=1e-14),
+                lanczos_params=dict(N_max=40, E_tol=1e-14, P_tol=1e-16, reortho=True))
+    if mix != 'none':
+        opts['mixer_params'] = dict(amplitude=1e-2, decay=1.5, disable_after=12)
+    cls = dmrg.TwoSiteDMRGEngine if n == 2 else dmrg.SingleSiteDMRGEngine
+    try:
+        with warnings.catch_warnings():
+            warnings.simplefilter('ignore')
+            eng = cls(psi, M, opts, orthogonal_to=[psi0])
+            E, _ = eng.run()
+    except core.MachineryError:
+        raise
+    except Exception as e:
+        ctx.case(key + ('exception',), action='Excited.run')
+        ctx.violation(dict(sig0, clause='exception', exc=type(e).__name__), dict(detail0, message=str(e)[:600]))
+        return False
+    ok = True
+    E = float(np.real(E))
+
+    def fail(clause, **kw):
+        nonlocal ok
+        ok = False
+        ctx.violation(dict(sig0, clause=clause), dict(detail0, E=E, E0=E0, sweeps=eng.sweeps, **kw))
+    nt = float(np.max(np.abs(psi.norm_test())))
+    ctx.case(key + ('P1',), action='Excited.P1')
+    if not (nt < 1e-8 and abs(psi.norm - 1.) < 1e-10):
+        fail('P1-canonical-form', norm_test=nt)
+        return False
+    ctx.case(key + ('P2',), action='Excited.P2')
+    qt = [int(x) for x in psi.get_total_charge(only_physical_legs=True)]
+    if qt != [2 * inst['nup'] - L]:
+        fail('P2-charge-sector', charge=qt)
+    amp = dense_amplitudes(psi)
+    ov = sum(complex(a, -b) * amp.get(s, 0.0) for s, (a, b) in zip(inst['basis'], inst['vc']))
+    vv = float(sum(a * a + b * b for a, b in inst['vc']))
+    ctx.case(key + ('X1',), action='Excited.X1')
+    if not abs(ov) ** 2 <= 1e-12 * vv:
+        fail('X1-not-orthogonal-to-ground-state', overlap2=abs(ov) ** 2 / vv)
+    EH = float(np.real(M.H_MPO.expectation_value(psi)))
+    ctx.case(key + ('X3',), action='Excited.X3')
+    if max(eng.trunc_err_list) < 1e-14 and not abs(EH - E) <= tol:
+        fail('X3-energy-vs-expectation', expectation=EH)
+    ctx.case(key + ('X4',), action='Excited.X4')
+    if not EH > E0 + tol:
+        fail('X4-not-above-ground-state', expectation=EH)
+    return ok
+
+
+def stage_excited(ctx, insts, rng):
+    """orthogonal_to=[certified ground state] through every diag_method, on complex (gauge-twisted) instances"""
+    import numpy as np
+    from tenpy.networks.mps import MPS
+    from tenpy.algorithms import dmrg
+    quick = ctx.tier == 'quick'
+    pool = [I for I in insts if I['twk'] != 0 and I['nondeg'] and I['conn'] and len(I['basis']) >= 6 and I['L'] <= 6]
+    rng.shuffle(pool)
+    pool.sort(key=lambda I: {'ferro': 0, 'mg': 1, 'chain2': 2}.get(I['fam'], 3))
+    chosen = []
+    for fam in ('ferro', 'mg', 'chain2', 'dimer'):
+        chosen += [I for I in pool if I['fam'] == fam][:1 if quick else 3]
+    chosen = chosen[:2 if quick else 12]
+    nrun = nok = 0
+    for j, inst0 in enumerate(chosen):
+        inst = dict(inst0)
+        inst['terms'] = list(inst0['terms']) + [dict(k='id', i=0, j=0, m=0, c=-EXC_SHIFT)]
+        M = build_term_model(inst)
+        inst['terms'] = inst0['terms']
+        # the ground state as an MPS: a two-site run whose result is bound to the spec's exact vector (as in P5)
+        L = inst['L']
+        s0 = [s for s, (a, b) in zip(inst['basis'], inst['vc']) if (a, b) != (0, 0)][0]
+        psi0 = MPS.from_product_state(M.lat.mps_sites(), ['up' if (s0 >> i) & 1 else 'down' for i in range(L)], bc='finite')
+        with warnings.catch_warnings():
+            warnings.simplefilter('ignore')
+            dmrg.TwoSiteDMRGEngine(psi0, M, dict(mixer='DensityMatrixMixer', diag_method='ED_block', max_sweeps=30, N_sweeps_check=1,
+                                                 max_E_err=1e-13, max_S_err=1e-9, max_trunc_err=None,
+                                                 mixer_params=dict(amplitude=1e-2, decay=1.5, disable_after=12),
+                                                 trunc_params=dict(chi_max=2 ** (L // 2) + 4, svd_min=1e-14))).run()
+        amp = dense_amplitudes(psi0)
+        ov = sum(complex(a, -b) * amp.get(s, 0.0) for s, (a, b) in zip(inst['basis'], inst['vc']))
+        vv = float(sum(a * a + b * b for a, b in inst['vc']))
+        if not abs(abs(ov) ** 2 - vv) <= 1e-7 * vv:
+            continue      # ground state not reached: reported by the P5 clause of the main stage, nothing to orthogonalise against
+        cfgs = list(EXC_ENGINES)
+        if quick:
+            cfgs = [EXC_ENGINES[0], EXC_ENGINES[1 + (j + ctx.seed) % 4], EXC_ENGINES[5 + (j + ctx.seed) % 3]]
+        for xcfg in cfgs:
+            s1 = product_states(inst, rng, 1)[0]
+            nrun += 1
+            if excited_case(ctx, inst, xcfg, psi0, M, s1, 'exc%d' % j):
+                nok += 1
+    ctx.trace_ok(nok)
+    ctx.notes['excited_runs'] = nrun
+
+
 def stage_infinite(ctx, insts, rng):
     quick = ctx.tier == 'quick'
     pool = [I for I in insts if I['fam'] == 'chain2' and I['L'] == 6 and I['twk'] in (0, 1)]   # translation invariant twists
@@ -792,6 +919,7 @@ def stage_solvable(ctx):
     ctx.trace_ok(nok)
     ctx.notes['solvable_runs'] = nrun
     stage_infinite(ctx, insts, rng)
+    stage_excited(ctx, insts, rng)
 
 
 # ================================================================================================
